@@ -245,6 +245,19 @@ def assume(t, c, val):
     return t
 
 
+def assume_deep(t, c, val):
+    """Like assume(), but rewrites everywhere inside t (call arguments, lists, ...)."""
+    def f(x):
+        if x == c:
+            return TRUE if val else FALSE
+        if x[0] == "ite" and x[1] == c:
+            return assume_deep(x[2] if val else x[3], c, val)
+        if x[0] == "not" and x[1] == c:
+            return FALSE if val else TRUE
+        return None
+    return subst(t, f)
+
+
 def negate(x):
     if x[0] == "add":
         return simp(("add", tuple(negate(y) for y in x[1])))
@@ -342,6 +355,7 @@ class SymX:
         self.inline_depth = inline_depth
         self.no_inline = set(no_inline)
         self.calls_inlined = []
+        self.closures = {}
         self.final = None
         self.ret = None
 
@@ -352,9 +366,12 @@ class SymX:
             st.env[p] = (arg_terms or {}).get(p, ("v", p))
         st.env["$ret"] = C(None)
         st.env["$returned"] = FALSE
+        is_gen = any(isinstance(n, (ast.Yield, ast.YieldFrom)) for n in ast.walk(self.func.node))
+        if is_gen:
+            st.env["$yield"] = ("list", ())
         st = self.block(self.func.node.body, st, self.func, 0)
         self.final = st
-        self.ret = st.env["$ret"]
+        self.ret = st.env["$yield"] if is_gen else st.env["$ret"]
         return self
 
     # ---- statements ------------------------------------------------------------
@@ -367,6 +384,15 @@ class SymX:
 
     def stmt(self, s, st, f, depth):
         ev = lambda e: self.expr(e, st, f, depth)
+        if isinstance(s, ast.FunctionDef):
+            cid = next(self._ids)
+            self.closures[cid] = (s, dict(st.env), f)
+            st.env[s.name] = ("closure", cid)
+            return st
+        if isinstance(s, ast.Expr) and isinstance(s.value, ast.Yield):
+            v = ev(s.value.value) if s.value.value is not None else C(None)
+            st.env["$yield"] = simp(("cat", st.env.get("$yield", ("list", ())), ("list", (v,))))
+            return st
         if isinstance(s, ast.Expr):
             if isinstance(s.value, ast.Constant):
                 return st  # docstring
@@ -581,6 +607,8 @@ class SymX:
                 if isinstance(n, ast.Subscript) and isinstance(n.ctx, ast.Store) and isinstance(n.value, ast.Name) \
                         and n.value.id not in names:
                     names.append(n.value.id)
+                if isinstance(n, ast.Yield) and "$yield" not in names:
+                    names.append("$yield")
         return names
 
     def _iter_source(self, it, st, f, depth, loop):
@@ -883,7 +911,9 @@ class SymX:
         if isinstance(e, ast.Starred):
             return ("star", ev(e.value))
         if isinstance(e, ast.Lambda):
-            return ("lambda", src(e))
+            cid = next(self._ids)
+            self.closures[cid] = (e, dict(st.env), f)
+            return ("closure", cid)
         raise Unsupported("expression %s" % type(e).__name__)
 
     def call(self, c, st, f, depth):
@@ -897,6 +927,14 @@ class SymX:
             m = self.prog.resolve_method(self.cls_name, c.func.attr)
             if m is not None and depth < self.inline_depth:
                 return self.inline(m, (("v", "self"),) + args, kws, st, depth)
+        if isinstance(c.func, ast.Name) and c.func.id in st.env:
+            fv = st.env[c.func.id]
+            if fv[0] == "closure" and depth < self.inline_depth + 2:
+                return self.inline_closure(fv[1], args, kws, st, depth)
+            if fv[0] == "v" and fv[1] in f.mod.funcs and depth < self.inline_depth and fv[1] not in self.no_inline:
+                return self.inline(f.mod.funcs[fv[1]], args, kws, st, depth)
+            if fv[0] != "v" or fv[1] != c.func.id:
+                return ("apply", fv, args, kws)
         callees = self.ctx.cg.resolve(c, f)
         if isinstance(c.func, ast.Name) and len(callees) == 1 and callees[0].cls is None and depth < self.inline_depth \
                 and callees[0].name not in self.no_inline:
@@ -923,10 +961,36 @@ class SymX:
                     sub.env[p] = ("v", p)
         sub.env["$ret"] = C(None)
         sub.env["$returned"] = FALSE
+        is_gen = any(isinstance(n, (ast.Yield, ast.YieldFrom)) for n in ast.walk(m.node))
+        if is_gen:
+            sub.env["$yield"] = ("list", ())
         sub.heap = dict(st.heap)
         out = self.block(m.node.body, sub, m, depth + 1)
         self.calls_inlined.append(m.qual)
         st.heap = out.heap
+        alive = self._alive(st)
+        for e in out.effects:
+            st.effects.append((mk_and(alive, e[0]),) + e[1:])
+        if is_gen:
+            return out.env["$yield"]
+        return out.env["$ret"]
+
+    def inline_closure(self, cid, args, kws, st, depth):
+        node, env, f = self.closures[cid]
+        sub = State()
+        sub.env = dict(env)
+        a = node.args
+        params = [x.arg for x in a.posonlyargs + a.args]
+        for p_, v in zip(params, args):
+            sub.env[p_] = v
+        for k, v in kws:
+            sub.env[k] = v
+        sub.env["$ret"] = C(None)
+        sub.env["$returned"] = FALSE
+        sub.heap = dict(st.heap)
+        if isinstance(node, ast.Lambda):
+            return self.expr(node.body, sub, f, depth + 1)
+        out = self.block(node.body, sub, f, depth + 1)
         alive = self._alive(st)
         for e in out.effects:
             st.effects.append((mk_and(alive, e[0]),) + e[1:])
